@@ -392,6 +392,22 @@ pub(crate) mod k {
         core::mem::forget(v);
         None
     }
+    /// `std::io::copy` by its documented contract (read until Ok(0), write_all every chunk,
+    /// return the byte count; the harness sources never report Interrupted) with a 4-byte buffer instead of std's 8 KiB
+    /// uninitialised stack buffer (whose initialisation alone exceeds the array-theory budget).
+    pub fn stub_io_copy<R: Read + ?Sized, W: Write + ?Sized>(reader: &mut R, writer: &mut W) -> io::Result<u64> {
+        let mut buf = [0u8; 4];
+        let mut total = 0u64;
+        loop {
+            let n = match reader.read(&mut buf) {
+                Ok(0) => return Ok(total),
+                Ok(n) => n,
+                Err(e) => return Err(e),
+            };
+            writer.write_all(&buf[..n])?;
+            total += n as u64;
+        }
+    }
     /// CPU feature detection (inline `cpuid` asm is not modelled): report "no extensions", so the
     /// portable software implementations of aes/sha1 are the code that is encoded.
     #[cfg(target_arch = "x86_64")]
